@@ -194,7 +194,8 @@ template<typename R, typename... Args> struct Sys {
     void examine() {
         std::set<int> S0 = stored();
         for (size_t pi = 0; pi < U->patterns.size(); pi++) check_notify((int)pi, {}, "");
-        // stored keys are prefix-closed, contain every key with a live subscription, exists(pattern) and depth() agree with them
+        // stored keys are prefix-closed, contain every key with a live subscription, exists(pattern) and depth() agree with them (C13's clauses: not judged by the C06 run)
+        if (!c13) return;
         size_t maxlen = 0;
         for (int k : S0) {
             const Path &p = U->all_keys[k]; maxlen = std::max(maxlen, p.size());
